@@ -327,23 +327,19 @@ Definition union_pub_field (TBL : list lang) (L : lang) (e : E.env) (bs : E.byte
     (forall p, Proofs.EncWbxmlAbs.header_pid e = Some p ->
        exists i, wd_pub d = PubIdx i /\ str_at (wd_strtbl d) i = Some p /\ blen (wd_strtbl d) < 4294967296).
 
-Theorem roundtrip_union_choice tblb TBL L o tag attrs ch bs forced :
+Lemma union_core tblb TBL L o tag attrs ch forced d evs :
   let e := E.enc_env (D2.to_blang L) o in
-  D2.vals_ok L = true -> UN.side_u L = true -> Proofs.EncWbxmlAbs5.tag_tbl_ok e = true ->
-  D6.tree_ok6 L (UN.aok_u L) (UN.tok_u L (E.o_keep_ws o)) (UN.cok_plain L) (UN.eok_plain tblb e L) (E.is_syncml (E.e_lang e)) 0 true None (E.NElt tag attrs ch) = true ->
-  find (fun x => l_id x =? l_id L) TBL = Some L -> CWU.lang_choiceW TBL L e forced -> union_pub_field TBL L e bs ->
-  E.o_version o < 4 -> E.header_public_id e < 4294967296 -> E.header_public_id e <> 0 ->
-  (match Proofs.EncWbxmlAbs.header_pid e with Some p => D2.okb p = true | None => True end) ->
-  E.len bs < 4294967296 ->
-  E.enc_wbxml tblb (D2.to_blang L) o [E.NElt tag attrs ch] = E.EOk bs ->
+  find (fun x => l_id x =? l_id L) TBL = Some L -> CWU.lang_choiceW TBL L e forced ->
+  E.header_public_id e < 4294967296 -> E.header_public_id e <> 0 ->
+  denote_with TBL (Some L) d = Some evs ->
+  EV.merge_chars evs = EV.merge_chars (C6.doc_events6 tblb L e (UN.acan_u L) (UN.tev_u L e (E.o_keep_ws o)) (E.NElt tag attrs ch)) ->
+  (Proofs.EncWbxmlAbs.header_pid e = None -> wd_pub d = PubNum (E.header_public_id e)) ->
+  (forall p, Proofs.EncWbxmlAbs.header_pid e = Some p ->
+     exists i, wd_pub d = PubIdx i /\ str_at (wd_strtbl d) i = Some p /\ blen (wd_strtbl d) < 4294967296) ->
   no_data (C6.doc_events6 tblb L e (UN.acan_u L) (UN.tev_u L e (E.o_keep_ws o)) (E.NElt tag attrs ch)) = true ->
-  forall ef, tree_from_wbxml TBL forced 0 ef bs = BOk (mk_wtree (l_id L) 106 (hd_error (tn_union tblb L o (E.NElt tag attrs ch)))).
+  forall ef, tree_from_wbxml TBL forced 0 ef (serialize d) = BOk (mk_wtree (l_id L) 106 (hd_error (tn_union tblb L o (E.NElt tag attrs ch)))).
 Proof.
-  cbv zeta. intros HV HSD HTB HT HFind Hch Hpubf Hv H1 H0 Hpid Hlen He Hnd ef.
-  destruct (UN.strict_decode_union tblb TBL L o tag attrs ch bs HV HSD HTB HT HFind Hv H1 H0 Hpid Hlen He)
-    as (d & evs & Hbs & _ & Hden & _ & HM).
-  destruct (Hpubf d evs Hbs Hden) as [Hpub Hpubt].
-  subst bs.
+  cbv zeta. intros HFind Hch H1 H0 Hden HM Hpub Hpubt Hnd ef.
   assert (Hp : parse_with TBL forced 0 (S (length (serialize d))) (serialize d) = POk evs).
   { destruct Hch as [[[-> Hid] | [-> [Hp1 Hfp]]] | [-> (p & Hp & Hfp)]].
     - apply (parse_denote_with TBL (fun l0 _ _ => typed_wv_agree_proved) typed_datetime_agree_proved (l_id L) (Some L) d); [|exact Hden].
@@ -392,4 +388,52 @@ Proof.
     apply spec_forest_app; [apply spec_forest_nodes6; exact Htc|apply IHr]. }
   pose proof (build_of_shape TBL ef 106 (l_id L) [] t (if wa then map (D5.attr_event5 (acan tag attrs)) attrs else []) kidsE [] kidsT eq_refl eq_refl Hk Ht Hni) as Hb.
   cbn [app] in Hb. rewrite app_nil_r in Hb. exact Hb.
+Qed.
+
+Theorem roundtrip_union_choice tblb TBL L o tag attrs ch bs forced :
+  let e := E.enc_env (D2.to_blang L) o in
+  D2.vals_ok L = true -> UN.side_u L = true -> Proofs.EncWbxmlAbs5.tag_tbl_ok e = true ->
+  D6.tree_ok6 L (UN.aok_u L) (UN.tok_u L (E.o_keep_ws o)) (UN.cok_plain L) (UN.eok_plain tblb e L) (E.is_syncml (E.e_lang e)) 0 true None (E.NElt tag attrs ch) = true ->
+  find (fun x => l_id x =? l_id L) TBL = Some L -> CWU.lang_choiceW TBL L e forced -> union_pub_field TBL L e bs ->
+  E.o_version o < 4 -> E.header_public_id e < 4294967296 -> E.header_public_id e <> 0 ->
+  (match Proofs.EncWbxmlAbs.header_pid e with Some p => D2.okb p = true | None => True end) ->
+  E.len bs < 4294967296 ->
+  E.enc_wbxml tblb (D2.to_blang L) o [E.NElt tag attrs ch] = E.EOk bs ->
+  no_data (C6.doc_events6 tblb L e (UN.acan_u L) (UN.tev_u L e (E.o_keep_ws o)) (E.NElt tag attrs ch)) = true ->
+  forall ef, tree_from_wbxml TBL forced 0 ef bs = BOk (mk_wtree (l_id L) 106 (hd_error (tn_union tblb L o (E.NElt tag attrs ch)))).
+Proof.
+  cbv zeta. intros HV HSD HTB HT HFind Hch Hpubf Hv H1 H0 Hpid Hlen He Hnd ef.
+  destruct (UN.strict_decode_union tblb TBL L o tag attrs ch bs HV HSD HTB HT HFind Hv H1 H0 Hpid Hlen He)
+    as (d & evs & Hbs & _ & Hden & _ & HM).
+  destruct (Hpubf d evs Hbs Hden) as [Hpub Hpubt]. subst bs.
+  exact (union_core tblb TBL L o tag attrs ch forced d evs HFind Hch H1 H0 Hden HM Hpub Hpubt Hnd ef).
+Qed.
+
+(* ... and with the public-id field as wbxmlenc exports it for the union (Proofs/EncWbxmlUnionPub.v): no hypothesis left *)
+From Wbxml Require Proofs.EncWbxmlUnionPub.
+Lemma denote_strtbl_u32 TBL fo d evs : denote_with TBL fo d = Some evs -> blen (wd_strtbl d) < 4294967296.
+Proof.
+  unfold denote_with.
+  match goal with |- (if ?c then _ else _) = _ -> _ => destruct c eqn:E end; [|discriminate].
+  intros _. apply andb_true_iff in E. destruct E as [E _]. apply andb_true_iff in E. destruct E as [_ E]. unfold u32_okb in E. apply N.ltb_lt in E. exact E.
+Qed.
+
+Theorem roundtrip_union_unforced tblb TBL L o tag attrs ch bs forced :
+  let e := E.enc_env (D2.to_blang L) o in
+  D2.vals_ok L = true -> UN.side_u L = true -> Proofs.EncWbxmlAbs5.tag_tbl_ok e = true ->
+  D6.tree_ok6 L (UN.aok_u L) (UN.tok_u L (E.o_keep_ws o)) (UN.cok_plain L) (UN.eok_plain tblb e L) (E.is_syncml (E.e_lang e)) 0 true None (E.NElt tag attrs ch) = true ->
+  find (fun x => l_id x =? l_id L) TBL = Some L -> CWU.lang_choiceW TBL L e forced ->
+  E.o_version o < 4 -> E.header_public_id e < 4294967296 -> E.header_public_id e <> 0 ->
+  (match Proofs.EncWbxmlAbs.header_pid e with Some p => D2.okb p = true | None => True end) ->
+  E.len bs < 4294967296 ->
+  E.enc_wbxml tblb (D2.to_blang L) o [E.NElt tag attrs ch] = E.EOk bs ->
+  no_data (C6.doc_events6 tblb L e (UN.acan_u L) (UN.tev_u L e (E.o_keep_ws o)) (E.NElt tag attrs ch)) = true ->
+  forall ef, tree_from_wbxml TBL forced 0 ef bs = BOk (mk_wtree (l_id L) 106 (hd_error (tn_union tblb L o (E.NElt tag attrs ch)))).
+Proof.
+  cbv zeta. intros HV HSD HTB HT HFind Hch Hv H1 H0 Hpid Hlen He Hnd ef.
+  destruct (Proofs.EncWbxmlUnionPub.strict_decode_of_encoding6_pub tblb TBL L o tag attrs ch bs HV HSD HTB HT HFind Hv H1 H0 Hpid Hlen He)
+    as (d & evs & Hbs & _ & Hden & _ & HM & Hpf). subst bs.
+  apply (union_core tblb TBL L o tag attrs ch forced d evs HFind Hch H1 H0 Hden HM); [| |exact Hnd].
+  - intros Hn. rewrite Hn in Hpf. exact Hpf.
+  - intros p Hp. rewrite Hp in Hpf. destruct Hpf as (i & Hi & Hs). exists i. split; [exact Hi|]. split; [exact Hs|exact (denote_strtbl_u32 _ _ _ _ Hden)].
 Qed.
